@@ -11,6 +11,9 @@ def main():
     bt = loader.load_bt()
     out = []
     for spec in json.load(open(sys.argv[1])):
+        if spec.get("benchmark"):
+            out.append(benchmark(bt, spec, R, S, np))
+            continue
         life = spec.get("kind") == "life"
         random.seed(spec.get("global_seed", 12345))
         if life:
@@ -33,6 +36,31 @@ def main():
             o["held"] = sorted(n for n, c in b.strategy.children.items() if getattr(c, "_position", 0) != 0)
         out.append(o)
     print(json.dumps(out))
+
+
+def benchmark(bt, case, R, S, np):
+    """`benchmark_random` of a generated case with the seeds fixed: digest of the price frame of all backtests + the histories of the
+    random ones"""
+    import hashlib
+    a = bt.algos
+    data = R.frame(case["prices"], case["dates"])
+    w = a.WeighRandomly() if case["weigher"] == "WeighRandomly" else a.WeighEqually()
+    t = bt.Strategy(case["tname"], [a.RunWeekly(), a.SelectAll(), a.SelectRandomly(case["k"]), w, a.Rebalance()])
+    mine = bt.Strategy("mine", [a.RunWeekly(), a.SelectAll(), a.WeighEqually(), a.Rebalance()])
+    b = bt.Backtest(mine, data, progress_bar=False)
+    random.seed(case["seed"])
+    np.random.seed(case["seed"] % (2 ** 32))
+    try:
+        res = bt.backtest.benchmark_random(b, t, nsim=case["nsim"])
+    except Exception as e:  # noqa
+        return {"digest": "raised:" + type(e).__name__, "err": type(e).__name__, "final": None, "universe": None}
+    h = hashlib.sha256()
+    for x in res.backtest_list:
+        h.update(str(x.name).encode())
+        h.update(S.digest(S.node_histories(bt, x.strategy)).encode())
+        h.update(",".join(str(c) for c in x.data.columns).encode())
+    return {"digest": h.hexdigest(), "err": None, "final": [float(x.strategy._value) for x in res.backtest_list],
+            "universe": [[str(c) for c in x.data.columns] for x in res.backtest_list]}
 
 
 if __name__ == "__main__":
